@@ -71,6 +71,16 @@ func putLE(b []byte, off, w int, v uint64) {
 	}
 }
 
+func putField(b []byte, f core.Field, v uint64) {
+	if !f.BE {
+		putLE(b, f.Off, f.W, v)
+		return
+	}
+	for i := 0; i < f.W && f.Off+i < len(b); i++ {
+		b[f.Off+i] = byte(v >> (8 * uint(f.W-1-i)))
+	}
+}
+
 func relMutants(seed []byte, rels []Rel) [][]byte {
 	var out [][]byte
 	for _, rl := range rels {
@@ -83,7 +93,7 @@ func relMutants(seed []byte, rels []Rel) [][]byte {
 		}
 		for _, v := range []uint64{rl.Fit - st, rl.Fit, rl.Fit + st, rl.Fit - 1, rl.Fit + 1} {
 			b := append([]byte(nil), seed...)
-			putLE(b, rl.Field.Off, rl.Field.W, v)
+			putField(b, rl.Field, v)
 			out = append(out, b)
 		}
 	}
@@ -149,7 +159,7 @@ func init() {
 }
 
 func (prop) ID() string                 { return "C20" }
-func (prop) CaseTimeout() time.Duration { return 10 * time.Second }
+func (prop) CaseTimeout() time.Duration { return 6 * time.Second }
 func (prop) MemLimitBytes() uint64      { return 3 << 30 }
 
 func cpuNow() time.Duration {
@@ -229,7 +239,7 @@ func (prop) Gen(r *rand.Rand, tier string) []core.Case {
 		add := func(list *[]core.Case, kind string, in []byte, args map[string]string) {
 			c := mkCase(kind, e, in, args)
 			key := c.Args["in"]
-			for _, k := range []string{"i", "n", "off", "start"} {
+			for _, k := range []string{"i", "n", "off", "start", "pre", "total", "id", "vt"} {
 				key += "|" + c.Args[k]
 			}
 			if seen[key] {
@@ -378,8 +388,16 @@ func (prop) Run(c core.Case) core.Outcome {
 	return out
 }
 
+var shrinkBudget = 48
+
 // Shrink: tail truncations (keeps every offset inside the input valid).
 func (prop) Shrink(c core.Case) []core.Case {
+	// every candidate of a hanging case costs a full CaseTimeout: spend at most shrinkBudget
+	// candidates per run on minimisation (replays are concrete either way)
+	if shrinkBudget <= 0 {
+		return nil
+	}
+	shrinkBudget -= 4
 	in := core.UnHex(c.Args["in"])
 	var out []core.Case
 	for _, l := range []int{len(in) / 2, len(in) * 3 / 4, len(in) - 16, len(in) - 1} {
